@@ -21,6 +21,9 @@ def run(ctx):
         r5 = ctx.rule("R07.5" + sfx, "multi-byte fields (zlib trailer, stored-block header) are collected through a persisted counter, one byte per step", floor=6, config=cfg)
         ic.rule_counted_bytes(ctx, cfg, r5)
         ic.rule_counted_bytes(ctx, cfg, r5, arm="RawHeader", limit=4, acc_field=None)
+        r9 = ctx.rule("R07.9" + sfx, "input conservation: a byte taken from the input iterator is in the decoder state, handed to a continuation or "
+                      "returned when the path leaves the function — never only in a temporary at a suspension", floor=7, config=cfg)
+        ic.rule_input_conservation(ctx, cfg, r9)
     # the streaming wrapper: the window hand-off between calls (a later call never abandons the 32 KiB window for the caller's buffer)
     from rules import c13
     c13.run_cfg(ctx, "H1", only=("R13.8", "R13.6"), prefix="R07.7/")
